@@ -10,6 +10,7 @@
 package main
 
 import (
+	"crypto/sha256"
 	"encoding/json"
 	"flag"
 	"fmt"
@@ -144,6 +145,16 @@ func parseCsv(content string, event bool) []CsvRow {
 	return rows
 }
 
+// shortText keeps Coq terms small: a text of more than 512 bytes is replaced,
+// on the expected and on the observed side alike, by its length and SHA-256
+// (equal digests = equal byte for byte).
+func shortText(s string) string {
+	if len(s) <= 512 {
+		return s
+	}
+	return fmt.Sprintf("LONG[%d bytes, sha256 %x]", len(s), sha256.Sum256([]byte(s)))
+}
+
 func coqCell(r CsvRow) string {
 	if r.Bad {
 		return "COther"
@@ -151,7 +162,7 @@ func coqCell(r CsvRow) string {
 	if r.IsNum {
 		return "(CNum " + audgen.CoqQFloat(r.Num) + ")"
 	}
-	return "(CText " + coqS(r.Text) + ")"
+	return "(CText " + coqS(shortText(r.Text)) + ")"
 }
 
 // FileKey identifies csv/<observer>.<actor>.<signal>.csv.
@@ -210,7 +221,7 @@ func (f *IntentFile) coq() string {
 		}
 		d := ""
 		if f.Kind == 0 {
-			d = "DText " + coqS(escapeByHand(p.Text))
+			d = "DText " + coqS(shortText(escapeByHand(p.Text)))
 		} else if p.Num == nil {
 			d = "DText " + coqS(p.Text) // a scalar spelled Inf / NaN
 		} else {
